@@ -428,13 +428,18 @@ def _scratch_file(data):
     import atexit
     import shutil
     import tempfile
-    if not _SCRATCH:
-        base = os.environ.get("VERIF_SCRATCH") or os.path.join(core.VERIF, ".work")
-        os.makedirs(base, exist_ok=True)
-        _SCRATCH.append(tempfile.mkdtemp(prefix="C02-files-", dir=base))
-        atexit.register(shutil.rmtree, _SCRATCH[0], True)
+    if not _SCRATCH or _SCRATCH[0][1] != os.getpid():
+        if os.environ.get("C02_SCRATCH"):        # the run's work directory (removed by the harness at exit)
+            d = os.path.join(os.environ["C02_SCRATCH"], "files-%d" % os.getpid())
+            os.makedirs(d, exist_ok=True)
+        else:
+            base = os.environ.get("VERIF_SCRATCH") or os.path.join(core.VERIF, ".work")
+            os.makedirs(base, exist_ok=True)
+            d = tempfile.mkdtemp(prefix="C02-files-", dir=base)
+            atexit.register(shutil.rmtree, d, True)
+        _SCRATCH[:] = [(d, os.getpid())]
     _SCRATCH.append(None)           # several files may be open at the same time: a new name per call, 64 names recycled
-    path = os.path.join(_SCRATCH[0], "doc-%d-%d" % (os.getpid(), len(_SCRATCH) % 64))
+    path = os.path.join(_SCRATCH[0][0], "doc-%d" % (len(_SCRATCH) % 64))
     with open(path, "wb") as f:
         f.write(data)
     return path
@@ -1740,6 +1745,7 @@ def run(ctx):
     quick = ctx.tier == "quick"
     rng = ctx.rng
     ctx.import_repo()
+    os.environ["C02_SCRATCH"] = ctx.work
     budget = int(os.environ.get("VERIF_TLC_WORKERS", "0") or 0) or core.NCPU     # TLC workers in use at a time
     workers = max(2, min(8, budget // 2))
     maxtotal = 3 if quick else 4            # documents emitted as CASE lines and replayed
@@ -2098,6 +2104,7 @@ def replay(ctx, case):
     import warnings
     warnings.filterwarnings("ignore", message="Parsing of Deb822 data with python3-apt")
     ctx.import_repo()
+    os.environ["C02_SCRATCH"] = ctx.work
     if case["kind"] == "doc":
         job = case["job"]
         if job["api"] == "build":
